@@ -2,7 +2,8 @@
    name: a key-sorted association list, a second push under the same key replaces the first), build_into with
    reserve_jentries / replace_jentry back-patching on the growing output buffer, write_entry.
    `entry_item` is the layout a builder denotes, as a pure function (the analogue of Codec.enc_item);
-   BuilderProofs.v shows build_into writes exactly that and only appends.  Executable definitions only. *)
+   BuilderProofs.v shows build_into writes exactly that and only appends.  The initial lengths and reserved sizes are the
+   expressions the translator reads from builder.rs into gen/Constants.v (names BLD_...).  Executable definitions only. *)
 From Coq Require Import List NArith ZArith Bool.
 Import ListNotations.
 From JB Require Import Constants Bytes Value Codec.
@@ -67,13 +68,13 @@ Fixpoint write_entry (buf : list N) (e : entry) : list N * je :=
   | ERaw j d => (buf ++ d, j)
   | EArr es =>
       let buf1 := buf ++ be32 (header_word ARRAY_CONTAINER_TAG (lenN es)) in
-      let '(buf2, idx) := reserve_jentries buf1 (length es * 4) in
-      let '(buf3, _, len) := bld_values write_entry buf2 idx (4 + lenN es * 4) es in
+      let '(buf2, idx) := reserve_jentries buf1 (N.to_nat (BLD_ARR_RESERVE (lenN es))) in
+      let '(buf3, _, len) := bld_values write_entry buf2 idx (BLD_ARR_LEN0 (lenN es)) es in
       (buf3, (CONTAINER_TAG, u32 len))
   | EObj kes =>
       let buf1 := buf ++ be32 (header_word OBJECT_CONTAINER_TAG (lenN kes)) in
-      let '(buf2, idx) := reserve_jentries buf1 (length kes * 8) in
-      let '(buf3, idx', len) := bld_keys buf2 idx (4 + lenN kes * 8) kes in
+      let '(buf2, idx) := reserve_jentries buf1 (N.to_nat (BLD_OBJ_RESERVE (lenN kes))) in
+      let '(buf3, idx', len) := bld_keys buf2 idx (BLD_OBJ_LEN0 (lenN kes)) kes in
       let '(buf4, _, len') := bld_members write_entry buf3 idx' len kes in
       (buf4, (CONTAINER_TAG, u32 len'))
   end.
